@@ -437,12 +437,13 @@ def model_exprs_for(prep, crash_results, recover_cb):
     for cr in crash_results:
         k, torn = cr["point"][0], cr["point"][1]
         t = "None" if torn is None else "(Some 1%nat)"
-        c = "(crash_run %s_w %d %s %s_base)" % (name, k, t, name)
+        cdef = "(crash_run %s_w %d %s %s_base)" % (name, k, t, name)
+        c = "c"
         sh = []
         for tag, cbv in (("shelve", None), ("shelve_cb", "valid")):
             sh.append("showouts (fst (run %s_%s %s)), showfs (snd (run %s_%s %s))" % (name, tag, c, name, tag, c))
-        exprs.append("(showfs %s, showouts (fst (run %s_rec %s)), showfs (snd (run %s_rec %s)), %s)"
-                     % (c, name, c, name, c, ", ".join(sh)))
+        exprs.append("(let c := %s in (showfs %s, showouts (fst (run %s_rec %s)), showfs (snd (run %s_rec %s)), %s))"
+                     % (cdef, c, name, c, name, c, ", ".join(sh)))
     for tag, cbv in (("shelve", None), ("shelve_cb", "valid")):
         defs.append("Definition %s_%s := %s." % (name, tag, coq_sess(
             S(prep["cur"], [{"a": "shelve", "k": x} for x in RECOVER_KEYS], cb=cbv), prep["tid"] + 1)))
@@ -533,7 +534,7 @@ def run_one_workload(env, name, wl, quick):
     prep = prepare_workload(env, name, wl)
     rcb = "valid" if "expires" in name else None
     pts = crash_points(prep)
-    with cf.ThreadPoolExecutor(max(2, common.NCPU // 2)) as ex:
+    with cf.ThreadPoolExecutor(max(2, common.NCPU // 3)) as ex:
         crs = list(ex.map(lambda p: run_crash(env, prep, p, rcb), pts))
     return prep, crs, rcb
 
@@ -621,12 +622,15 @@ def run(ctx):
         "rule": "12 workloads (cold, warm same/fresh process, source change, expires_after invalid/valid, call_and_shelve, "
                 "compress=True, reduce_size, Memory.clear in a fresh and in the writing process, MemorizedFunc.clear); the child is killed before EVERY mutating "
                 "operation index of the workload trace, plus torn prefixes {1, n/2, n-1, header boundaries of func_code.py} of every "
-                "write, plus after the last operation; recovery = fresh interpreter calling keys 1,2,3. non-trivial = the child "
-                "really died at that point; distinct by (workload, index, torn prefix)",
+                "write, plus after the last operation; read-back = 6 fresh interpreters per crash point, each on its own copy of "
+                "the crashed directory, for keys 1,2,3: f(k); call_and_shelve(k).get() without / with expires_after (these three are "
+                "also compared with the model); check_call_in_cache(k) + MemorizedResult built from the store + f(k), without / "
+                "with callback; call_and_shelve(k).get(), .clear(), f(k). non-trivial = the child really died at that point; "
+                "distinct by (workload, index, torn prefix)",
         "samples": [{"workload": done[0][0]["name"], "point": sample["point"] if sample else None,
                      "recovery": sample["r2"].get("results") if sample else None}],
         "traces_validated_against_impl": len(done),
-        "crash_runs": n_crash, "torn_runs": n_torn, "crash_runs_per_workload": dist,
+        "crash_runs": n_crash, "torn_runs": n_torn, "read_back_processes": n_crash * 6, "crash_runs_per_workload": dist,
         "model_evaluations": len(vals),
         "disagreements": len(disagreements),
         "trusted_base": trusted,
@@ -654,12 +658,15 @@ def replay(ctx, path):
     if rep.get("kind") != "crash":
         print("replay file names a broken proof/correspondence, nothing to execute:", rep.get("kind"))
         return 1
-    loc = env.fresh("replay")
+    base_dir = env.fresh("replay_base")
+    pidmap, tid = {}, 0
     for ps in rep["prelude"]:
-        run_child(child_spec(env.mods, loc, ps))
-    r1 = run_child(child_spec(env.mods, loc, rep["session"], mode="crash", crash_at=rep["crash_at"], torn=rep["torn"], state=False))
-    r2 = run_child(child_spec(env.mods, loc, rep["recover"], mode="trace", pre_state=True))
-    prep = {"cur": rep["recover"]["v"], "name": rep["workload"]}
-    bad = judge_crash(prep, {"r2": r2})
-    print("replay:", json.dumps(rep)[:400], "->", r2.get("results"), "=>", [b[0] for b in bad] or "property holds")
+        tid += 1
+        r = run_child(child_spec(env.mods, base_dir, ps))
+        pidmap[r.get("pid", -tid)] = tid
+    prep = {"name": rep["workload"], "base": base_dir, "pidmap": pidmap, "sess": rep["session"],
+            "cur": rep["recover"]["v"], "tid": tid + 1}
+    cr = run_crash(env, prep, (rep["crash_at"], rep["torn"], {"op": rep["op"][0], "p": rep["op"][1]}), rep["recover"].get("cb"))
+    bad = judge_crash(prep, cr) + judge_extras(prep, cr)
+    print("replay:", json.dumps(rep)[:300], "->", cr["r2"].get("results"), "=>", [b[0] for b in bad] or "property holds")
     return 1 if bad else 0
